@@ -22,7 +22,7 @@ import (
 
 const verifRecorderYAML = `
 name: vrecorder
-doc: records every message it sees and emits what the message lists under "emit"
+doc: records every message it sees and emits what the message lists under "emit", each stamped with the emitting machine's id
 nodes:
   start:
     branching:
@@ -39,7 +39,11 @@ nodes:
         var log = bs.log || [];
         log.push(m);
         if (m && typeof m === 'object' && m.emit) {
-          for (var i = 0; i < m.emit.length; i++) { _.out(m.emit[i]); }
+          for (var i = 0; i < m.emit.length; i++) {
+            var e = JSON.parse(JSON.stringify(m.emit[i]));
+            if (e && typeof e === 'object' && !Array.isArray(e)) { e.by = _.props.mid; }
+            _.out(e);
+          }
         }
         return {log: log};
     branching:
@@ -261,6 +265,7 @@ func checkMRoute(c MRouteCase) (v ev.Verdict) {
 				if m, ok := cur.(map[string]interface{}); ok {
 					if em, ok := m["emit"].([]interface{}); ok {
 						for _, e := range em {
+							e = stampBy(e, mid)
 							wantEmitted = append(wantEmitted, jsongen.Canon(e))
 							queue = append(queue, e)
 						}
@@ -355,4 +360,15 @@ func diffCounts(got, want []string) string {
 		}
 	}
 	return sb.String()
+}
+
+// stampBy is what the recorder does to each message it emits: a copy that
+// names the emitting machine, so that the emissions of different machines
+// reacting to one message can be told apart.
+func stampBy(e interface{}, mid string) interface{} {
+	c := jsongen.Copy(e)
+	if m, ok := c.(map[string]interface{}); ok {
+		m["by"] = mid
+	}
+	return c
 }
